@@ -417,13 +417,23 @@ func LoadKernel(name string) (*Kernel, error) { return LoadKernelSized(name, 409
 // TYPE and flags stay as the source declares them): what the program and the control plane do when a map is full
 // can then be observed with a few hundred entries instead of a million.
 func LoadKernelSized(name string, maxEntries uint32) (*Kernel, error) {
+	return LoadKernelSizedPer(name, maxEntries, nil)
+}
+
+// LoadKernelSizedPer is LoadKernelSized with an own bound for the maps named in per (so that one of two maps that
+// are written together fills up before the other).
+func LoadKernelSizedPer(name string, maxEntries uint32, per map[string]uint32) (*Kernel, error) {
 	spec, err := ebpf.LoadCollectionSpec(filepath.Join(OutDir(), "bpf", name+".o"))
 	if err != nil {
 		return nil, err
 	}
-	for _, m := range spec.Maps {
-		if m.MaxEntries > maxEntries && m.Type != ebpf.RingBuf && m.Type != ebpf.PerfEventArray {
-			m.MaxEntries = maxEntries
+	for mn, m := range spec.Maps {
+		lim := maxEntries
+		if v, ok := per[mn]; ok {
+			lim = v
+		}
+		if m.MaxEntries > lim && m.Type != ebpf.RingBuf && m.Type != ebpf.PerfEventArray {
+			m.MaxEntries = lim
 		}
 	}
 	coll, err := ebpf.NewCollection(spec)
